@@ -13,6 +13,109 @@ import (
 	"golang.org/x/tools/go/ssa"
 )
 
+// ownFieldID: k is seg.fieldsMap[name]-1 of the segment object seg — directly,
+// through a phi / comma-ok lookup, or as the result of an in-package helper that
+// computes exactly that from the segment it is handed.
+func ownFieldID(c *Ctx, k ssa.Value, seg ssa.Value, depth int) bool {
+	if depth > 3 {
+		return false
+	}
+	k = stripConv(k)
+	viaHelper := func(call *ssa.Call, idx int) bool {
+		sc := call.Call.StaticCallee()
+		if sc == nil || !c.inRoot(sc) || sc.Blocks == nil {
+			return false
+		}
+		var segParam *ssa.Parameter
+		for i, a := range call.Call.Args {
+			if i < len(sc.Params) && (a == seg || sameObject(a, seg)) {
+				segParam = sc.Params[i]
+			}
+		}
+		if segParam == nil {
+			return false
+		}
+		n := 0
+		for _, b := range sc.Blocks {
+			ret, ok := b.Instrs[len(b.Instrs)-1].(*ssa.Return)
+			if !ok || idx >= len(ret.Results) {
+				continue
+			}
+			rv := resolveLoad(ret.Results[idx])
+			if _, isConst := rv.(*ssa.Const); isConst {
+				continue // the "unknown field" return
+			}
+			n++
+			if !ownFieldID(c, rv, segParam, depth+1) {
+				return false
+			}
+		}
+		return n > 0
+	}
+	switch x := k.(type) {
+	case *ssa.Extract:
+		if call, ok := x.Tuple.(*ssa.Call); ok {
+			return viaHelper(call, x.Index)
+		}
+	case *ssa.Call:
+		return viaHelper(x, 0)
+	case *ssa.Phi:
+		n := 0
+		for _, e := range x.Edges {
+			if e == ssa.Value(x) {
+				continue
+			}
+			n++
+			if !ownFieldID(c, e, seg, depth+1) {
+				return false
+			}
+		}
+		return n > 0
+	}
+	bin, ok := k.(*ssa.BinOp)
+	if !ok || bin.Op != token.SUB {
+		return false
+	}
+	src := bin.X
+	// commaok lookup: extract #0
+	if ex, isEx := src.(*ssa.Extract); isEx {
+		src = ex.Tuple
+	}
+	// value may flow through a phi/local: accept phi whose edges are such lookups
+	var cands []ssa.Value
+	if phi, isPhi := src.(*ssa.Phi); isPhi {
+		for _, e := range phi.Edges {
+			if ex, isEx := e.(*ssa.Extract); isEx {
+				cands = append(cands, ex.Tuple)
+			} else {
+				cands = append(cands, e)
+			}
+		}
+	} else {
+		cands = []ssa.Value{src}
+	}
+	good := len(cands) > 0
+	for _, cd := range cands {
+		l2, isLk := cd.(*ssa.Lookup)
+		if !isLk {
+			return false
+		}
+		ld2, isLd := l2.X.(*ssa.UnOp)
+		if !isLd {
+			return false
+		}
+		fa2, isFa := ld2.X.(*ssa.FieldAddr)
+		if !isFa {
+			return false
+		}
+		_, f2 := fieldAddrInfo(fa2)
+		if f2 == nil || f2.Name() != "fieldsMap" || !sameObject(fa2.X, seg) && fa2.X != seg {
+			good = false
+		}
+	}
+	return good
+}
+
 // storesNonConstInto: fn stores a non-constant value into an element of param.
 func storesNonConstInto(fn *ssa.Function, param *ssa.Parameter) bool {
 	for _, b := range fn.Blocks {
@@ -160,7 +263,7 @@ func init() {
 
 	register(&Rule{
 		Name:  "DV-SEPARATOR",
-		Floor: 4,
+		Floor: 3,
 		Doc:   "the builder appends each term's bytes unmodified followed by the package variable termSeparator; the reader splits on a slice initialised from that same variable and hands the visitor the sub-slice between separators unmodified; nothing assigns termSeparator outside its initialiser",
 		Run: func(c *Ctx, scope string, r *Report) {
 			sep := c.Global("termSeparator")
@@ -308,7 +411,7 @@ func init() {
 
 	register(&Rule{
 		Name:  "DV-SECTION-COMPLETE",
-		Floor: 2,
+		Floor: 1,
 		Doc:   "whenever a writer records a real (non-sentinel) end offset for a field's doc-value section it has closed the content coder and written its trailer on that path: the loader parses the trailer of every field whose start offset is not the not-uninverted sentinel",
 		Run: func(c *Ctx, scope string, r *Report) {
 			// the writers: every function that is handed the doc-value end-offset
@@ -373,7 +476,7 @@ func init() {
 
 	register(&Rule{
 		Name:  "FIELDID-LANE",
-		Floor: 2,
+		Floor: 1,
 		Doc:   "per-segment tables (Segment.fieldDvReaders) are indexed with that same segment's own field id: the key is seg.fieldsMap[name]-1 of the segment whose table is read (field ids differ between segments and the merged output)",
 		Run: func(c *Ctx, scope string, r *Report) {
 			for _, fn := range c.srcFns {
@@ -396,52 +499,7 @@ func init() {
 							continue
 						}
 						key := fnName(fn) + "/fieldDvReaders-key"
-						// key = (lookup(load seg'.fieldsMap, name) - 1) possibly via a local
-						k := stripConv(lk.Index)
-						bin, ok := k.(*ssa.BinOp)
-						good := false
-						if ok && bin.Op == token.SUB {
-							src := bin.X
-							// commaok lookup: extract #0
-							if ex, isEx := src.(*ssa.Extract); isEx {
-								src = ex.Tuple
-							}
-							// value may flow through a phi/local: accept phi whose edges are such lookups
-							var cands []ssa.Value
-							if phi, isPhi := src.(*ssa.Phi); isPhi {
-								for _, e := range phi.Edges {
-									if ex, isEx := e.(*ssa.Extract); isEx {
-										cands = append(cands, ex.Tuple)
-									} else {
-										cands = append(cands, e)
-									}
-								}
-							} else {
-								cands = []ssa.Value{src}
-							}
-							good = len(cands) > 0
-							for _, cd := range cands {
-								l2, isLk := cd.(*ssa.Lookup)
-								if !isLk {
-									good = false
-									continue
-								}
-								ld2, isLd := l2.X.(*ssa.UnOp)
-								if !isLd {
-									good = false
-									continue
-								}
-								fa2, isFa := ld2.X.(*ssa.FieldAddr)
-								if !isFa {
-									good = false
-									continue
-								}
-								_, f2 := fieldAddrInfo(fa2)
-								if f2 == nil || f2.Name() != "fieldsMap" || !sameObject(fa2.X, fa.X) && fa2.X != fa.X {
-									good = false
-								}
-							}
-						}
+						good := ownFieldID(c, lk.Index, fa.X, 0)
 						if good {
 							r.ok(key, fnName(fn), c.pos(lk.Pos()), "indexed by the same segment's fieldsMap[name]-1")
 						} else {
@@ -506,7 +564,7 @@ func init() {
 
 	register(&Rule{
 		Name:  "BLOCK-SELECT",
-		Floor: 3,
+		Floor: 2,
 		Doc:   "the reader selects the stored-field block with docNum / N where N is the same folded constant both writers pass to newChunkedDocumentCoder",
 		Run: func(c *Ctx, scope string, r *Report) {
 			vals := map[string]string{}
@@ -518,6 +576,9 @@ func init() {
 				}
 				if strings.HasPrefix(k, "(*Segment).getDocStoredOffsets: arithmetic") {
 					vals[k] = strings.TrimPrefix(v, "/")
+					if i := strings.Index(vals[k], "@"); i >= 0 {
+						vals[k] = vals[k][:i]
+					}
 				}
 			}
 			first := ""
